@@ -91,6 +91,10 @@ class StrFlow(S.SemFlow):
         m = re.match(r"^(?:copy|move) \(\*(_\d+)\)\[(_\d+)\]$", txt)
         if m:
             base, idx = self.read(P, m.group(1), []), self.read(P, m.group(2), [])
+            if isinstance(base, tuple) and base and base[0] == "vec" and self.is_int(idx):
+                if 0 <= idx[1] < len(base[1]):
+                    return base[1][idx[1]]
+                raise Unsupported("constant index past the modelled slice")
             if isinstance(base, tuple) and base and base[0] == "bytes" and self.is_num(idx):
                 if self.is_int(idx):
                     return ("int", base[1][idx[1]])
@@ -140,7 +144,7 @@ class StrFlow(S.SemFlow):
         return S.SemFlow.write(self, P, local, proj, val)
 
     def term(self, v):
-        if isinstance(v, tuple) and v and v[0] in ("strlit", "strbuf", "chariter", "bytes", "byteiter", "vec", "viter", "fmtarg", "fmtarg_hex", "fmtargs", "nameref", "dict", "mapped"):
+        if isinstance(v, tuple) and v and v[0] in ("strlit", "strbuf", "chariter", "bytes", "byteiter", "vec", "viter", "fmtarg", "fmtarg_hex", "fmtargs", "nameref", "dict", "mapped", "sliceiter"):
             k = self._opaque.setdefault(id(v), len(self._opaque))
             self._keep.append(v)
             return const("opaque_%s_%d" % (v[0], k))
